@@ -29,6 +29,19 @@ META = {
     'families': ['ESCAPE', 'GLOBALS', 'PURITY', 'FORWARD', 'DEADPARAM', 'SIB-DEFAULTS'],
 }
 
+def cache_writer(ctx):
+    """The TRS method that fills the class-level cache - found by what it does
+    (an item store into `...__CACHE[...]`), so a rename of the private helper
+    does not lose it; the name in the property's mechanism list is the fallback."""
+    ci = ctx.repo.cls('trs.trs:TRS')
+    found = [m for m in ci.methods.values() if any(
+        isinstance(s_, ast.Assign) and any(isinstance(t, ast.Subscript) and '__CACHE' in norm(t.value) for t in s_.targets)
+        for s_ in walk_local(m.node))]
+    if len(found) == 1:
+        return found[0]
+    return ctx.repo.func('TRS._cache_trs_to_dict')
+
+
 MUT = ('append', 'extend', 'insert', 'pop', 'remove', 'clear', 'sort', 'reverse', 'update',
        'setdefault', 'add', 'discard', 'popitem')
 
@@ -216,6 +229,9 @@ def _class_writes(ctx):
             # local variables holding instances start lower-case in this repo
             key = (fi.qualname, f"{base}.{tgt.attr}")
             seen.add(key)
+            if key not in ALLOWED_CLASS_WRITES and f"{base}.{tgt.attr}" == 'TRS.__CACHE' \
+                    and fi.qualname == cache_writer(ctx).qualname:
+                key = ('TRS._cache_trs_to_dict', 'TRS.__CACHE')       # the same writer under a new name
             if key in ALLOWED_CLASS_WRITES:
                 ctx.ok('GLOBALS', f"{fi.qualname} writes {base}.{tgt.attr}", ALLOWED_CLASS_WRITES[key])
             elif isinstance(n, ast.Subscript) or (isinstance(n, ast.Call) and n.func.attr in ('setdefault', 'update')):
@@ -326,6 +342,8 @@ def _escape(ctx):
                 n_loads += 1
                 ok = isinstance(p, ast.Subscript) and p.value is st and isinstance(p.ctx, ast.Load)
                 ok = ok or (isinstance(p, ast.UnaryOp) and isinstance(p.op, ast.Not))   # `if not self.__trs_dict`
+                # any other test of the value (is None, truthiness in a condition) hands nothing out either
+                ok = ok or isinstance(p, (ast.Compare, ast.BoolOp)) or (isinstance(p, (ast.If, ast.While, ast.IfExp)) and p.test is st)
                 f = p
                 while f is not None and not isinstance(f, ast.FunctionDef):
                     f = parent(f)
@@ -336,7 +354,8 @@ def _escape(ctx):
                           key=f"ESCAPE|TRS.{where}|{norm(p)[:40]}")
             else:
                 src = norm(p.value) if isinstance(p, ast.Assign) else '?'
-                ok = src in ('None', 'TRS.__CACHE.get(new_trs, None)', 'TRS._cache_trs_to_dict(new_trs)')
+                wname = cache_writer(ctx).node.name
+                ok = src in ('None', 'TRS.__CACHE.get(new_trs, None)', 'TRS.__CACHE.get(new_trs)', f'TRS.{wname}(new_trs)')
                 ctx.shape(ok, 'ESCAPE', f"__trs_dict is set from the cache or the private caching function")
     ctx.floor('__trs_dict reads', n_loads, 6)
     # outside the class nobody touches the mangled names
@@ -365,7 +384,7 @@ def _escape(ctx):
     ctx.shape(norm(w.node.body[-1]) == 'return TRS.trs_to_dict(trs)', 'ESCAPE',
               'pytrs.trs_to_dict delegates to TRS.trs_to_dict')
     # the cached dict is what trs_to_dict returned for the same string
-    c = ctx.repo.func('TRS._cache_trs_to_dict')
+    c = cache_writer(ctx)
     stores = [s for s in walk_local(c.node) if isinstance(s, ast.Assign) and isinstance(s.targets[0], ast.Subscript)
               and '__CACHE' in norm(s.targets[0].value)]
     if not stores:
@@ -395,15 +414,25 @@ def _cache_purity(ctx):
     ctx.shape(any(norm(d) == 'staticmethod' for d in fi.node.decorator_list), 'PURITY',
               'trs_to_dict is a staticmethod (no instance state)')
     bad = []
-    for n in walk_local(fi.node):
-        if isinstance(n, ast.Attribute) and isinstance(n.value, ast.Name) and isinstance(n.ctx, ast.Load):
-            b, a = n.value.id, n.attr
-            if b in ('MC', 'MasterConfig'):
-                if not (a.startswith('_ERR') or a.startswith('_UNDEF')):
-                    bad.append(norm(n))
-            elif b == 'TRS':
-                if a not in ('_TRS_UNPACKER_REGEX',):
-                    bad.append(norm(n))
+    trs_cls = ctx.repo.cls('trs.trs:TRS')
+    todo, seen_f = [fi.node], set()
+    while todo:
+        fn_ = todo.pop()
+        if id(fn_) in seen_f:
+            continue
+        seen_f.add(id(fn_))
+        for n in walk_local(fn_):
+            if isinstance(n, ast.Attribute) and isinstance(n.value, ast.Name) and isinstance(n.ctx, ast.Load):
+                b, a = n.value.id, n.attr
+                if b in ('MC', 'MasterConfig'):
+                    if not (a.startswith('_ERR') or a.startswith('_UNDEF')):
+                        bad.append(norm(n))
+                elif b in ('TRS', 'cls'):
+                    if a in trs_cls.methods and isinstance(getattr(n, '_parent', None), ast.Call) and n._parent.func is n \
+                            and a not in ('trs_to_dict', '_cache_trs_to_dict'):
+                        todo.append(trs_cls.methods[a].node)      # an extracted helper: what IT reads counts
+                    elif a not in ('_TRS_UNPACKER_REGEX',) and b == 'TRS':
+                        bad.append(norm(n))
     ctx.check(not bad, 'PURITY', 'trs_to_dict reads only its argument, the placeholders and the compiled pattern',
               detail_bad=f"also reads {sorted(set(bad))}: a cached entry can differ from a recomputation",
               key="PURITY|trs_to_dict|reads")
@@ -415,7 +444,7 @@ def _cache_purity(ctx):
         raise AnalysisError("TRS.trs setter not found")
     t = [norm(s) for s in ast.walk(setter[0]) if isinstance(s, ast.stmt)]
     ctx.shape('self.__trs_dict = TRS.__CACHE.get(new_trs, None)' in t
-              and 'self.__trs_dict = TRS._cache_trs_to_dict(new_trs)' in t, 'PURITY',
+              and f'self.__trs_dict = TRS.{cache_writer(ctx).node.name}(new_trs)' in t, 'PURITY',
               'TRS.trs setter: cache lookup by the complete string, else recompute')
     # the lookup key is the string the entry was stored under: the raw input,
     # not a tidied-up spelling of it (a hit would then return the break-down of
@@ -448,5 +477,5 @@ def _cache_purity(ctx):
         for n in walk_local(f2.node):
             if isinstance(n, ast.Attribute) and n.attr == '_USE_CACHE' and isinstance(n.ctx, ast.Load):
                 readers.add(f2.qualname)
-    ctx.check(readers <= {'TRS._cache_trs_to_dict'}, 'PURITY', '_USE_CACHE only gates the cache write',
+    ctx.check(readers <= {'TRS._cache_trs_to_dict', cache_writer(ctx).qualname}, 'PURITY', '_USE_CACHE only gates the cache write',
               detail_bad=f"_USE_CACHE is read by {sorted(readers)}", key="PURITY|_USE_CACHE|readers")
